@@ -6,9 +6,11 @@
 // which gives f(x) - f* >= |x-x*|_2 (the stated precondition; re-checked on every case from the SVD of A).
 //
 // sub-checks
-//   ellipsoid      ellipsoid method, x* inside the initial radius                        (plain flavour)
-//   bundle         rqb, fpba1, fpba2 with bundle::max_size in 5..100                     (asan flavour)
-//   bundle-small   rqb, fpba1, fpba2 with bundle::max_size in 2..4  (finding F10)        (asan flavour)
+//   ellipsoid      ellipsoid method, x* inside the initial radius                                (plain flavour)
+//   bundle         rqb, fpba1, fpba2 with bundle::max_size in 5..100                             (plain flavour)
+//   bundle-small   rqb, fpba1, fpba2 with bundle::max_size in 2..4 (where finding F10 overflowed) (plain flavour)
+//   bundle-asan    rqb, fpba1, fpba2, bundle::max_size in 2..100, smaller budgets: regression guard for the
+//                  heap overflow of finding F10 (fixed in 674a0d8)                                (asan flavour)
 #include "c02_support.h"
 
 #include <Eigen/SVD>
@@ -287,7 +289,8 @@ enum class family_t
 {
     ellipsoid,
     bundle,
-    bundle_small
+    bundle_small,
+    bundle_asan
 };
 
 rc::Gen<scase_t> gen_case(const family_t family)
@@ -300,23 +303,27 @@ rc::Gen<scase_t> gen_case(const family_t family)
                                                static const char* ids[] = {"rqb", "fpba1", "fpba2"};
                                                return std::string(ids[k]);
                                            });
-    const auto g_size   = family == family_t::bundle_small
-                            ? gen::range<int>(2, 4)
-                            : rc::gen::map(rc::gen::pair(gen::range<int>(0, 9), gen::range<int>(5, 100)),
-                                           [](const std::pair<int, int>& p)
-                                           {
-                                               static const int common[] = {5, 6, 8, 10, 20, 50, 100};
-                                               return p.first < 7 ? common[p.first] : p.second;
-                                           });
+    const auto g_large = rc::gen::map(rc::gen::pair(gen::range<int>(0, 9), gen::range<int>(5, 100)),
+                                      [](const std::pair<int, int>& p)
+                                      {
+                                          static const int common[] = {5, 6, 8, 10, 20, 50, 100};
+                                          return p.first < 7 ? common[p.first] : p.second;
+                                      });
+    const auto g_size  = family == family_t::bundle_small
+                           ? gen::range<int>(2, 4)
+                           : (family == family_t::bundle_asan
+                                  ? rc::gen::mapcat(gen::chance(50), [=](bool small) { return small ? gen::range<int>(2, 4) : g_large; })
+                                  : g_large);
     // max_evals in [100, 20000]; 20000 is the budget the convergence clause of the ellipsoid method speaks about
     const auto g_evals = rc::gen::map(rc::gen::pair(gen::range<int>(0, 99), gen::real(0.0, 1.0)),
                                       [=](const std::pair<int, double>& p)
                                       {
-                                          if (p.first < (family == family_t::ellipsoid ? 50 : 10))
+                                          // (the asan flavour is 10-30x slower: mostly small budgets there)
+                                          if (p.first < (family == family_t::ellipsoid ? 50 : (family == family_t::bundle_asan ? 3 : 20)))
                                           {
                                               return 20000;
                                           }
-                                          if (p.first < (family == family_t::ellipsoid ? 60 : 30))
+                                          if (p.first < (family == family_t::ellipsoid ? 60 : (family == family_t::bundle_asan ? 10 : 50)))
                                           {
                                               return 100 + static_cast<int>(std::lround(19900.0 * p.second));
                                           }
@@ -352,13 +359,93 @@ rc::Gen<scase_t> gen_case(const family_t family)
                             }
                             c.bundle_size = std::get<2>(t);
                             c.max_evals   = std::get<3>(t);
-                            c.epsilon     = std::get<4>(t);
+                            c.epsilon     = std::clamp(std::get<4>(t), 1e-8, 1e-3);
                             c.radius      = std::get<5>(t).first ? 10.0 : std::get<5>(t).second * std::max(r.dist, 1e-3);
                             c.pmode       = std::get<6>(t).modes;
                             c.pu1         = std::get<6>(t).u1s;
                             c.pu2         = std::get<6>(t).u2s;
                             return c;
                         });
+}
+
+// ---- mechanism predicate of finding F13 (ellipsoid: convergence decided by rounding noise) ------------
+// The shape matrix H of the ellipsoid method is re-built in long double along the trajectory the library
+// actually took (the points, values and sub-gradients it was shown, in call order), with the deep-cut update of
+// src/solver/ellipsoid.cpp. Returns the extended-precision values of the two quantities the library compares
+// with its thresholds when it stops: sqrt(g'Hg) of the last update and of the current point. Both well above
+// epsilon means that the reported convergence was produced by cancellation in g'Hg (H is numerically singular).
+struct shape_replay_t
+{
+    bool        valid{false};
+    long double last_update{0.0L}; // sqrt(g'Hg) used for the last update (test `sqrt(gHg) < epsilon`)
+    long double current{0.0L};     // sqrt(g'Hg) at the last evaluated point (test `gHg < machine epsilon`)
+    long double condition{0.0L};   // largest / smallest diagonal entry of H at the end (cheap conditioning indicator)
+};
+
+shape_replay_t replay_shape(const std::vector<counted_t::eval_t>& history, const int n, const double R)
+{
+    shape_replay_t out;
+    if (n < 2 || history.size() < 2)
+    {
+        return out;
+    }
+    const auto               N = static_cast<size_t>(n);
+    const long double        ln = static_cast<long double>(n);
+    std::vector<long double> H(N * N, 0.0L), Hg(N);
+    for (size_t i = 0; i < N; ++i)
+    {
+        H[i * N + i] = static_cast<long double>(R) * static_cast<long double>(R);
+    }
+    const auto quad = [&](const std::vector<double>& g)
+    {
+        long double gHg = 0.0L;
+        for (size_t i = 0; i < N; ++i)
+        {
+            Hg[i] = 0.0L;
+            for (size_t j = 0; j < N; ++j)
+            {
+                Hg[i] += H[i * N + j] * static_cast<long double>(g[j]);
+            }
+            gHg += static_cast<long double>(g[i]) * Hg[i];
+        }
+        return gHg;
+    };
+    long double best = static_cast<long double>(history[0].f);
+    for (size_t k = 0; k + 1 < history.size(); ++k)
+    {
+        const auto gHg = quad(history[k].g);
+        if (!(gHg > 0.0L) || !std::isfinite(static_cast<double>(gHg)))
+        {
+            return out;
+        }
+        out.last_update  = std::sqrt(gHg);
+        const auto alpha = (static_cast<long double>(history[k].f) - best) / std::sqrt(gHg);
+        const auto scale = (ln * ln) / (ln * ln - 1.0L) * (1.0L - alpha * alpha);
+        const auto beta  = 2.0L * (1.0L + ln * alpha) / (ln + 1.0L) / (1.0L + alpha) / gHg;
+        for (size_t i = 0; i < N; ++i)
+        {
+            for (size_t j = 0; j < N; ++j)
+            {
+                H[i * N + j] = scale * (H[i * N + j] - beta * Hg[i] * Hg[j]);
+            }
+        }
+        best = std::min(best, static_cast<long double>(history[k + 1].f));
+    }
+    const auto gHg = quad(history.back().g);
+    if (!(gHg >= 0.0L) || !std::isfinite(static_cast<double>(gHg)))
+    {
+        return out;
+    }
+    out.current = std::sqrt(gHg);
+    long double dmin = H[0], dmax = H[0];
+    for (size_t i = 0; i < N; ++i)
+    {
+        dmin = std::min(dmin, H[i * N + i]);
+        dmax = std::max(dmax, H[i * N + i]);
+    }
+    out.condition = dmin > 0.0L ? dmax / dmin : std::numeric_limits<long double>::infinity();
+    out.valid     = true;
+    return out;
 }
 
 // ---- the oracle -----------------------------------------------------------------------------------
@@ -463,6 +550,7 @@ verdict_t check_case(const scase_t& c, ctx_t& ctx)
     }
 
     function.limit(8 * (static_cast<int64_t>(c.max_evals) + 1100 + 8 * c.n));
+    function.record(ellipsoid);
     nano::solver_state_t state;
     try
     {
@@ -529,9 +617,59 @@ verdict_t check_case(const scase_t& c, ctx_t& ctx)
         ctx.maximum("cancellation-noise/bound", noise / static_cast<double>(bound));
         if (ratio > 1.0 && !ellipsoid && static_cast<double>(ref.gap) <= 100.0 * noise)
         {
+            // ... and only when the proximity parameter is involved: prox::miu0_range is not at its default, or a second,
+            // logged run of the same (deterministic) solve shows miu below 1e-8
+            auto min_miu = std::numeric_limits<double>::infinity();
+            {
+                linebuf_t buffer(
+                    [&](const std::string& line)
+                    {
+                        const auto pos = line.find(",miu=");
+                        if (pos != std::string::npos && line.find("[csearch]:") != std::string::npos)
+                        {
+                            min_miu = std::min(min_miu, std::strtod(line.c_str() + pos + 5, nullptr));
+                        }
+                    });
+                std::ostream  stream(&buffer);
+                const sharp_t inner2(c);
+                counted_t     function2(inner2);
+                function2.limit(8 * (static_cast<int64_t>(c.max_evals) + 1100 + 8 * c.n));
+                try
+                {
+                    solver->minimize(function2, x0, nano::make_stream_logger(stream));
+                }
+                catch (...)
+                {
+                }
+            }
+            const auto range_nondefault = applied.description.find("prox::miu0_range") != std::string::npos;
+            if (!range_nondefault && !(min_miu < 1e-8))
+            {
+                return ratio > 10.0 ? verdict_t::violation("C03/converged-not-optimal/" + c.solver,
+                                                           cat("f(x)-f*=", static_cast<double>(ref.gap), " bound=", static_cast<double>(bound),
+                                                               " |x-x*|=", static_cast<double>(ref.dist), " max|f| shown to the solver=",
+                                                               function.max_abs_value(), " min miu=", min_miu, "; ", info()))
+                                    : verdict_t::borderline("gap-above-bound");
+            }
             return verdict_t::known("C03/converged-not-optimal/far-trial-point-cancellation",
                                     cat("f(x)-f*=", static_cast<double>(ref.gap), " bound=", static_cast<double>(bound),
-                                        " max|f| shown to the solver=", function.max_abs_value(), "; ", info()));
+                                        " max|f| shown to the solver=", function.max_abs_value(), " smallest miu=", min_miu, "; ", info()));
+        }
+        if (ratio > 1.0 && ellipsoid)
+        {
+            // mechanism of finding F13: H has become numerically singular and g'Hg is cancellation noise (possibly
+            // negative, which the `gHg < machine epsilon` exit takes for convergence); in extended precision
+            // neither stopping quantity is anywhere near its threshold
+            const auto shape = replay_shape(function.history(), c.n, c.radius);
+            if (shape.valid && shape.last_update > 2.0L * static_cast<long double>(c.epsilon) &&
+                shape.current > 2.0L * static_cast<long double>(c.epsilon))
+            {
+                return verdict_t::known("C03/converged-not-optimal/ellipsoid/shape-matrix-cancellation",
+                                        cat("f(x)-f*=", static_cast<double>(ref.gap), " bound=", static_cast<double>(bound),
+                                            " sqrt(g'Hg) in long double: last update ", static_cast<double>(shape.last_update),
+                                            ", current ", static_cast<double>(shape.current), " diag(H) max/min=",
+                                            static_cast<double>(shape.condition), "; ", info()));
+            }
         }
         if (ratio > 10.0)
         {
@@ -558,5 +696,6 @@ int main(int argc, char** argv)
     suite.add<scase_t>("ellipsoid", [] { return gen_case(family_t::ellipsoid); }, check_case, 1.0);
     suite.add<scase_t>("bundle", [] { return gen_case(family_t::bundle); }, check_case, 1.0);
     suite.add<scase_t>("bundle-small", [] { return gen_case(family_t::bundle_small); }, check_case, 0.3);
+    suite.add<scase_t>("bundle-asan", [] { return gen_case(family_t::bundle_asan); }, check_case, 0.1);
     return suite.main(argc, argv);
 }
